@@ -58,7 +58,7 @@ theorem InvM_erase (s : MemCState) (k : Str) (hi : InvM s) : InvM (AL.erase s k)
   · simp [hk] at h
   · simp only [hk] at h; exact hi k' e' h
 
-theorem mem_sim : Sim memCOps (kvOpsC kvCfgKeep) RM (fun _ op => op.hasData = true) := by
+theorem mem_sim : CSim memCOps (kvOpsC kvCfgKeep) RM (fun _ op => op.hasData = true) := by
   intro s t op ⟨ht, hi⟩ hok
   subst ht
   have hget : ∀ k, (absM s).get k = (AL.get s k).map memEntry := fun k => AL.get_mapVal memEntry s k
